@@ -183,7 +183,7 @@ func runCase(c Case) (fs []finding, execs int64, outcome string, err error) {
 	switch c.Family {
 	case "baseline":
 		top, e := buildTower(w, c.Levels, func(level int, letter string) role {
-			return role{key: nodeKey(level, letter), native: c.Peers}
+			return role{key: outKey(level, letter), native: c.Peers}
 		})
 		if e != nil {
 			return nil, 0, "", &harnessErr{"build: " + e.Error()}
@@ -202,9 +202,9 @@ func runCase(c Case) (fs []finding, execs int64, outcome string, err error) {
 		f := failure{kind: c.Kind}
 		top, e := buildTower(w, c.Levels, func(level int, letter string) role {
 			if level == c.FailLevel && letter == c.FailNode {
-				return role{key: nodeKey(level, letter), native: c.Native, fail: &f}
+				return role{key: outKey(level, letter), native: c.Native, fail: &f}
 			}
-			return role{key: nodeKey(level, letter), native: c.Peers}
+			return role{key: outKey(level, letter), native: c.Peers}
 		})
 		if e != nil {
 			return nil, 0, "", &harnessErr{"build: " + e.Error()}
@@ -237,12 +237,12 @@ func runCase(c Case) (fs []finding, execs int64, outcome string, err error) {
 		for rep := 0; rep < 3; rep++ { // natively several times: the verdict must not depend on who finishes first
 			top, e := buildTower(w, c.Levels, func(level int, letter string) role {
 				if level == last && letter == "b" {
-					return role{key: nodeKey(level, letter), native: c.Native, fail: &fb}
+					return role{key: outKey(level, letter), native: c.Native, fail: &fb}
 				}
 				if level == last && letter == "c" {
-					return role{key: nodeKey(level, letter), native: c.Native, fail: &fc}
+					return role{key: outKey(level, letter), native: c.Native, fail: &fc}
 				}
-				return role{key: nodeKey(level, letter), native: c.Peers}
+				return role{key: outKey(level, letter), native: c.Peers}
 			})
 			if e != nil {
 				return nil, 0, "", &harnessErr{"build: " + e.Error()}
@@ -316,7 +316,7 @@ func runCase(c Case) (fs []finding, execs int64, outcome string, err error) {
 		defer cancel()
 		w.cancel = cancel
 		top, e := buildTower(w, c.Levels, func(level int, letter string) role {
-			r := role{key: nodeKey(level, letter), native: "invoke"}
+			r := role{key: outKey(level, letter), native: "invoke"}
 			if c.Family == "cancel-in" && level == c.FailLevel && letter == c.FailNode {
 				r.cancel = true
 			}
